@@ -179,7 +179,7 @@ for nm, shape, kind, exp in (("c02_assert_fresh_account", "account A never poste
                              ("c02_step_two_same", "A holds a X and b Y (both non-zero)", "= e X", 400),
                              ("c02_step_two_other", "A holds a X and b Y (both non-zero)", "= e Y", 400),
                              ("c02_step_one_bare_zero", "A holds a X (non-zero)", "bare = 0", 400)):
-    H("C02", file="core/book_keeping.rs", name=nm, timeout=2400, expect_s=exp, recursion=REC0, map_cap=2, mem_gb=10,
+    H("C02", file="core/book_keeping.rs", name=nm, timeout=2400, expect_s=exp, recursion=REC0, map_cap=2, mem_gb=14,
       functions=["process_posting", "ComputedPosting::compute_from_syntax", "Balance::add_posting_amount", "Amount::assert_balance", "Amount::round (must not be applied)"],
       bound="pre-state: %s; posting `A  v X %s` as a tracked syntax tree with spans; v, e 16-bit at scale 2; precision 1 declared for X or not; unwind 6" % (shape, kind),
       models=[FMT, DEC, MAP, BUMP, RECNOTE],
